@@ -69,9 +69,17 @@ def log(*a):
 
 def run(cmd, timeout=600, cwd=None, env=None, input=None):
     """Run a command; returns (rc, stdout, stderr); rc = -9 on timeout."""
+    def _big_stack():       # the extracted OCaml functions are not tail recursive: large index sets need a deep system stack
+        try:
+            import resource
+            soft, hard = resource.getrlimit(resource.RLIMIT_STACK)
+            want = hard if hard != resource.RLIM_INFINITY else resource.RLIM_INFINITY
+            resource.setrlimit(resource.RLIMIT_STACK, (want, hard))
+        except Exception:
+            pass
     try:
         p = subprocess.run(cmd, cwd=cwd, env=env, input=input, capture_output=True, text=True,
-                           timeout=timeout, errors="replace")
+                           timeout=timeout, errors="replace", preexec_fn=_big_stack)
         return p.returncode, p.stdout, p.stderr
     except subprocess.TimeoutExpired as e:
         so = e.stdout.decode(errors="replace") if isinstance(e.stdout, bytes) else (e.stdout or "")
